@@ -44,7 +44,7 @@ ASSUMPTIONS = [
     "noisy SAR with non-zero noise is held to bounds and dtype only (monotonicity is not expected of a noisy converter)",
 ]
 REQUIRED_COUNTERS = [
-    "simple_adc_calls", "sar_adc_calls", "sar_adc_with_noise_calls",
+    "simple_adc_calls", "sar_adc_calls", "sar_adc_with_noise_calls", "cases_setters_image_of_earlier_setting_kept",
     "m2_simple_adc_calls", "m2_sar_adc_calls", "m2_sar_adc_with_noise_calls",
     "codes_bounds_checked", "pairs_monotone_checked", "saturation_low_checked", "saturation_high_checked",
     "dtype_checked", "sar_zero_noise_images_compared", "inf_inputs_checked", "fullscale_above_53_bits_checked",
@@ -366,7 +366,12 @@ class Ctx:
             self.rec.count("cases_constructor")
             return det, "constructor"
         det = self.pool[(kind, shape)]
-        det.empty()
+        if rng.random() < 0.5:
+            det.empty()
+        else:
+            # a detector that was digitised before with another setting (narrower or wider code type)
+            # and not reset: what it still holds must not influence the new image
+            self.rec.count("cases_setters_image_of_earlier_setting_kept")
         det.characteristics.adc_bit_resolution = bits
         det.characteristics.adc_voltage_range = (vmin, vmax)
         self.rec.count("cases_setters")
